@@ -40,7 +40,7 @@ ASSUMPTIONS = [
     "TableReader files are well-formed numeric rows (two or more columns); malformed rows are outside the statement",
 ]
 REQUIRED = {"stratum:table": 60, "stratum:reader": 60, "stratum:plot": 40, "reader:no_final_newline": 15,
-            "reader:unsorted": 15, "reader:x_scaled": 20, "table:x_scaled": 8, "reader:inside_node_inside": 10, "reader:other_interval_then_node_then_inside": 15, "reader:comments": 15, "reader:other_number_spellings": 15, "table:xy": 15, "table:y_before_x": 4, "table:x_y": 15, "table:potable": 20}
+            "reader:unsorted": 15, "reader:x_scaled": 20, "table:x_scaled": 8, "reader:inside_node_inside": 10, "reader:other_interval_then_node_then_inside": 15, "reader:comments": 15, "plot:end_point_inexact": 8, "reader:other_number_spellings": 15, "table:xy": 15, "table:y_before_x": 4, "table:x_y": 15, "table:potable": 20}
 
 
 @st.composite
@@ -106,12 +106,35 @@ def _reader_case(draw):
             "noise_at": draw(st.lists(st.integers(0, 30), min_size=0, max_size=4))}
 
 
+def _inexact_ends():
+    """(lowx, highx, steps) from round numbers for which lowx + steps*((highx-lowx)/steps) does not land on highx in
+    floating point (below or above it): whatever derives the number of rows from that sum gets it wrong there"""
+    out = []
+    for lowx in (0, 0.1, 0.2, 0.5, 1.0, 0.3, 0.7):
+        for highx in (1.0, 2.0, 3, 4.0, 6.0, 6.5, 12, 15.0, 2.5, 10.0):
+            for steps in (3, 5, 7, 10, 20, 100, 1000, 5000, 10000):
+                if highx > lowx and lowx + steps * ((highx - lowx) / float(steps)) != highx:
+                    out.append((lowx, highx, steps))
+    return out
+
+
+INEXACT_ENDS = _inexact_ends()
+
+
 @st.composite
 def _plot_case(draw):
-    form = draw(gen.form_leaf(["buck", "morse", "polynomial", "lj", "bornmayer"]))
-    lowx = draw(st.one_of(st.sampled_from([0.1, 0.5, 1.0]), gen.fl(0.05, 5.0)))
-    highx = lowx + draw(gen.fl(0.1, 20.0))
-    return {"kind": "plot", "form": form, "lowx": lowx, "highx": highx, "steps": draw(st.integers(1, 120)),
+    # lower limits of zero (int, float, minus zero) and below, for the forms that are regular there; round and
+    # arbitrary extents; step counts from 1 to the default 10000
+    lowx = draw(st.one_of(st.sampled_from([0, 0.0, -0.0, 0.1, 0.2, 0.5, 1.0, -1.0, 1]), gen.fl(0.05, 5.0)))
+    regular = lowx <= 0
+    form = draw(gen.form_leaf(["morse", "polynomial", "bornmayer"] if regular else ["buck", "morse", "polynomial", "lj", "bornmayer"]))
+    highx = draw(st.one_of(st.sampled_from([1.0, 2.0, 3, 4.0, 6.0, 6.5, 12, 15.0]).filter(lambda h: h > lowx),
+                           gen.fl(0.1, 20.0).map(lambda d: lowx + d)))
+    steps = draw(st.one_of(st.integers(1, 120), st.sampled_from([3, 5, 10, 20, 100, 1000, 5000, 10000])))
+    if draw(st.integers(0, 2)) == 0:
+        lowx, highx, steps = draw(st.sampled_from(INEXACT_ENDS))
+        form = draw(gen.form_leaf(["morse", "polynomial", "bornmayer"]))
+    return {"kind": "plot", "form": form, "lowx": lowx, "highx": highx, "steps": steps,
             "route": draw(st.sampled_from(["plotToFile", "plot", "plotPotentialObjectToFile", "plotPotentialObject"]))}
 
 
@@ -309,6 +332,8 @@ def _check_reader(case):
 def _check_plot(case):
     from atsim.potentials import potentialforms as pf
     v, cls = [], ["stratum:plot", "plot:" + case["route"]]
+    if case["lowx"] + case["steps"] * ((case["highx"] - case["lowx"]) / float(case["steps"])) != case["highx"]:
+        cls.append("plot:end_point_inexact")
     f = getattr(pf, case["form"]["name"])(*case["form"]["p"])
     lowx, highx, steps, route = case["lowx"], case["highx"], case["steps"], case["route"]
     try:
